@@ -24,6 +24,14 @@ CHECKS = {
          "Every list file with 0..2 (quick) / 0..3 (thorough) entries x name kind x 5 title forms x 5 file contents or a missing file x 5 blank-line patterns x final newline is given to the build_sample_md built from the working tree in a fresh directory; README.md must equal the reference rendering (byte-exact while the reference renderer reproduces the repository's own samples/README.md, structural otherwise); an unreadable file must give a non-zero exit and no README.md.",
          "The fixed header is learnt from the checked-in samples/README.md.",
          "DESIGN.md C18"),
+ "C13": ("bounded-exhaustive enumeration of inputs (choice-tree explorer, in-process driver linked against the working tree's pkg/slice) vs. an independent recursive cons-list model",
+         "Every []int over {0,1,2} and []string over {\"\",\"a\",\"b\"} of length 0..5 (quick) / 0..7 (thorough) x every in-range index and count x a fixed family of total function arguments; all pairs of slices (Append, Zip) and slices of slices (Concat, Collect); each of the 29 functions of pkg/slice is compared with a recursive list model (Sort/SortBy: ascending permutation; Map/Iter call order; Forall/Forany/TryFind scan order and early exit).",
+         "Out-of-domain calls are not made; stability of Sort is not required; nil-ness of results is not compared (C10 covers equality of differently produced slices).",
+         "DESIGN.md C13"),
+ "C14": ("explicit-state breadth-first search over dictionary operation sequences vs. a model map, plus bounded-exhaustive argument enumeration for strings/buf/frt (in-process driver linked against the working tree's pkg/*)",
+         "dict: BFS over Add on 3 keys x 2 values until the state space (27 map contents) is closed, all observers checked twice in every state, plus every non-deduplicated history up to depth 4 (quick) / 6 (thorough) and ToDict of the same pair lists; strings: every argument of length <= 3 / 4 over {a,b,','} x every affix/separator of length <= 2, SplitN counts -1..3, vs. Go's strings with the documented argument order; buf: all write sequences of <= 3 / 4 strings with interleaved reads; frt: Pipe/PipeUnit/IfElse/IfElseUnit/IfOnly with counting thunks, tuple round trips, Sprintf1/2, Printf1/Println (captured), SInterP over every Go basic kind at boundary values.",
+         "Go's strings/fmt are the oracles; the display form for SInterP is %d / %f / the string / %v as the statement says.",
+         "DESIGN.md C14"),
 }
 NOT_APPLICABLE = []
 
